@@ -1719,6 +1719,85 @@ def _smallest_first(res: Result) -> None:
     res.failures.sort(key=size)
 
 
+def _sub_document(case: Dict[str, Any], keep_ops: List[str]) -> Optional[Dict[str, Any]]:
+    """the case restricted to some operations and the fragments they reach through spreads"""
+    from graphql import FragmentDefinitionNode, FragmentSpreadNode, OperationDefinitionNode, parse, print_ast, visit, Visitor
+
+    doc = parse(case["queries"])
+    frags = {d.name.value: d for d in doc.definitions if isinstance(d, FragmentDefinitionNode)}
+    ops = [d for d in doc.definitions if isinstance(d, OperationDefinitionNode) and d.name and d.name.value in keep_ops]
+    if not ops:
+        return None
+
+    def spreads(node: Any) -> Set[str]:
+        out: Set[str] = set()
+
+        class V(Visitor):
+            def enter_fragment_spread(self, n: FragmentSpreadNode, *_: Any) -> None:
+                out.add(n.name.value)
+
+        visit(node, V())
+        return out
+
+    reach: Set[str] = set()
+    todo = [n for o in ops for n in spreads(o)]
+    while todo:
+        n = todo.pop()
+        if n in reach or n not in frags:
+            continue
+        reach.add(n)
+        todo += list(spreads(frags[n]))
+    keep = [d for d in doc.definitions if d in ops or (isinstance(d, FragmentDefinitionNode) and d.name.value in reach)]
+    if len(keep) == len(doc.definitions):
+        return None
+    text = "\n\n".join(print_ast(d) for d in keep) + "\n"
+    out = dict(case)
+    out["queries"] = text
+    out["calls"] = [c for c in case.get("calls", []) if c["op"] in keep_ops]
+    out["id"] = case["id"] + "-shrunk-" + common.stable_hash(text)[:6]
+    return out
+
+
+def shrink_failures(ctx: Ctx, st: Optional[LeanStatus], res: Result) -> None:
+    """structural shrinking of the failing inputs that will be reported (the first one of each class outside every finding region):
+    drop operations, then the fragment definitions nothing reaches, as long as the SAME failure class remains, the document stays
+    valid and the model still places the smaller input outside every finding region.  Never turns into an alarm of its own."""
+    findings = common.load_findings(PROP)
+    done: Set[str] = set()
+    for f in res.failures:
+        if len(done) >= 3:
+            break
+        if common.match_finding(f, findings) is not None or f.key() in done:
+            continue
+        done.add(f.key())
+        case = f.input.get("case") if isinstance(f.input, dict) else None
+        if not isinstance(case, dict) or "queries" not in case:
+            continue
+        try:
+            cur = case
+            names = sorted({c["op"] for c in case.get("calls", [])})
+            cands = [[n] for n in names] if len(names) > 1 else []
+            cands.append(names)  # all operations, unreached fragment definitions dropped
+            for keep in cands:
+                small = _sub_document(cur, keep)
+                if small is None or not valid_case(small)[0]:
+                    continue
+                sub = Result()
+                irs = corr_packages(ctx, st, sub, [small], "shrink")
+                oracle(ctx, sub, [small], irs, "shrink")
+                same = [g for g in sub.failures if g.signature == f.signature and common.match_finding(g, findings) is None]
+                if same:
+                    cur = small
+                    f.input, f.detail = same[0].input, same[0].detail
+                    break
+            if cur is not case:
+                ctx.log(f"shrunk a failing input ({f.signature}): {len(case['queries'])} -> {len(cur['queries'])} characters")
+        except common.Infra:
+            raise
+        except Exception as e:  # noqa: BLE001
+            ctx.log(f"shrinking skipped: {e!r}")
+
+
 def budget3(ctx: Ctx, quick: int, boosted: int, thorough: int) -> int:
     """quick tier / quick tier boosted by a changed fingerprint of a modelled function / thorough tier"""
     if ctx.tier == "thorough":
@@ -1771,6 +1850,7 @@ def run(ctx: Ctx, st: Optional[LeanStatus]) -> Result:
     sliced("mro", make_mro_cases(ctx.sub_rng("mro"), budget3(ctx, 60, 240, 800), "mro"), budget3(ctx, 45, 180, 500), 400)
     ctx.log(f"base-order family done: evaluations={res.evaluations} mismatches={len(res.mismatches)} failures={len(res.failures)}")
     _smallest_first(res)
+    shrink_failures(ctx, st, res)
     # what the directed search starts from if the tie broke (see `search`)
     _STATE["st"] = st
     seen_ids: Set[str] = set()
@@ -1825,24 +1905,28 @@ def search(ctx: Ctx) -> Result:
         ctx.log(f"search: {len(dis)} disagreeing input(s) judged: failures={len(res.failures)}")
         if in_hand():
             _smallest_first(res)
+            shrink_failures(ctx, st, res)
             return res
     dcases = make_cases(ctx.sub_rng("search-directed"), 240, DIRECTED_FEATURES, "search-directed")
     judge(ctx, st, res, dcases, "search:directed", 240, quiet_corr=True)
     ctx.log(f"search: directed family judged: failures={len(res.failures)}")
     if in_hand():
         _smallest_first(res)
+        shrink_failures(ctx, st, res)
         return res
     mcases = make_mro_cases(ctx.sub_rng("search-mro"), 300, "search-mro")
     judge(ctx, st, res, mcases, "search:mro", 300, quiet_corr=True)
     ctx.log(f"search: base-order family judged: failures={len(res.failures)}")
     if in_hand():
         _smallest_first(res)
+        shrink_failures(ctx, st, res)
         return res
     cases = make_cases(ctx.sub_rng("search"), 500, None, "search")
     judge(ctx, st, res, cases, "search", 300, quiet_corr=True)
     rcases = make_cases(ctx.sub_rng("search-regions"), 200, REGION_FEATURES, "search-region")
     judge(ctx, st, res, rcases, "search-regions", 80, quiet_corr=True)
     _smallest_first(res)
+    shrink_failures(ctx, st, res)
     return res
 
 
